@@ -357,24 +357,31 @@ fn check_year_direct(e: &mut Env, y: i64) {
                 expect(e, "month", &dc, func("MONTH", &[Arg::T(&text)]), Sv::Int(m), &case, "MONTH(d)");
                 expect(e, "day", &dc, func("DAY", &[Arg::T(&text)]), Sv::Int(d), &case, "DAY(d)");
                 expect(e, "quarter", &dc, func("QUARTER", &[Arg::T(&text)]), Sv::Int((m - 1) / 3 + 1), &case, "QUARTER(d)");
-                e.st.add("function_calls_on_valid_dates", 19);
+                e.st.add("function_calls_on_valid_dates", 18);
                 if l == Some(n) && df == Some(n) && fdays == Some(n) {
                     e.st.add("dates_where_literal_default_and_to_days_agree_on_the_day_number", 1);
                 }
                 e.st.add("valid_dates", 1);
+                e.rep.outcome(if l == Some(n) && df == Some(n) && fdays == Some(n) { "valid date: literal, DEFAULT and TO_DAYS give the calendar's day number" } else { "valid date: some converter deviates" });
                 rvals.push(OwnedValue::Date(n as i32));
                 rexp.push((m, d, text.clone()));
             } else {
                 let ic = iclass(y, m, d);
                 e.st.add("invalid_field_combinations", 1);
                 match lit(0, &text) {
-                    Ok(Err(_)) => e.st.add("invalid_rejected_by_parse_date", 1),
+                    Ok(Err(_)) => {
+                        e.st.add("invalid_rejected_by_parse_date", 1);
+                        e.rep.outcome("invalid combination: rejected by the literal parser");
+                    }
                     Ok(Ok(o)) => e.v("parse_date", "invalid-accepted", &ic, case(), "Err", &format!("{o:?}")),
                     Err(p) => e.v("parse_date", "invalid-panic", &ic, case(), "Err", &p),
                 }
                 match dflt(DataType::Date, &text) {
                     Ok(OwnedValue::Null) => e.st.add("invalid_default_yields_null(tolerated as rejection)", 1),
-                    Ok(o) => e.v("default-date", "invalid-accepted", &ic, case(), "rejected (error or NULL)", &format!("{o:?}")),
+                    Ok(o) => {
+                        e.rep.outcome("invalid combination: accepted by the DEFAULT parser");
+                        e.v("default-date", "invalid-accepted", &ic, case(), "rejected (error or NULL)", &format!("{o:?}"));
+                    }
                     Err(p) => e.v("default-date", "invalid-panic", &ic, case(), "rejected (error or NULL)", &p),
                 }
                 for f in DATE_FUNCS_ON_INVALID {
@@ -942,7 +949,7 @@ impl Check for C41 {
         let mut s = Spec::new(
             "C41",
             "exploration",
-            "a case is one (year, month 0..13, day 0..32) field combination (all 9999 x 14 x 33 = 4 619 538, of which 3 652 059 are the valid dates of years 1..9999), one time text (every second of a day x 7 fraction forms = 604 800, plus 11 invalid field combinations), or one timestamp text (Jan 1 / Feb 28 / Feb 29 / Mar 1 / Dec 31 of every year x {00:00:00, 12:00:00, 23:59:59.999999} x {' ','T'} plus 5 invalid ones per year). Direct layer (both tiers, every case): parse_date/parse_time/parse_timestamp, the DEFAULT parser via ConstraintValidator::apply_defaults, 19 date-function calls per valid date through eval_datetime_function, rendering through cli::table::TableFormatter. SQL layer: INSERT of the text into DATE/TIME/TIMESTAMP columns + SELECT *, TO_DAYS/FROM_DAYS/DAYOFWEEK/DAYOFYEAR/LAST_DAY/DATEDIFF/CAST in batched SELECT lists, CREATE TABLE .. DEFAULT '<date>' for the 24 month-boundary dates of every year, invalid combinations by single-row INSERT / CAST (every year of the every-date set) and DEFAULT (boundary years); thorough: every date of every year; quick: every date of the ~460 boundary years (1..40, 1960..2040, 9960..9999, xx99/xx00/xx01) and the month-boundary dates of all other years; every second of the day in both tiers. Cases are pairwise distinct by construction; all are non-trivial.",
+            "a case is one (year, month 0..13, day 0..32) field combination (all 9999 x 14 x 33 = 4 619 538, of which 3 652 059 are the valid dates of years 1..9999), one time text (every second of a day x 7 fraction forms = 604 800, plus 11 invalid field combinations), or one timestamp text (Jan 1 / Feb 28 / Feb 29 / Mar 1 / Dec 31 of every year x {00:00:00, 12:00:00, 23:59:59.999999} x {' ','T'} plus 5 invalid ones per year). Direct layer (both tiers, every case): parse_date/parse_time/parse_timestamp, the DEFAULT parser via ConstraintValidator::apply_defaults, 18 date-function calls per valid date (TO_DAYS, FROM_DAYS, DAYOFWEEK, WEEKDAY, DAYNAME, DAYOFYEAR, LAST_DAY, 3x DATEDIFF, 2x DATE_ADD, DATE_SUB, MAKEDATE, YEAR, MONTH, DAY, QUARTER) through eval_datetime_function, rendering through cli::table::TableFormatter. SQL layer: INSERT of the text into DATE/TIME/TIMESTAMP columns + SELECT *, TO_DAYS/FROM_DAYS/DAYOFWEEK/DAYOFYEAR/LAST_DAY/DATEDIFF/CAST in batched SELECT lists, CREATE TABLE .. DEFAULT '<date>' for the 24 month-boundary dates of every year, invalid combinations by single-row INSERT / CAST (every year of the every-date set) and DEFAULT (boundary years); thorough: every date of every year; quick: every date of the ~460 boundary years (1..40, 1960..2040, 9960..9999, xx99/xx00/xx01) and the month-boundary dates of all other years; every second of the day in both tiers. Cases are pairwise distinct by construction; all are non-trivial.",
         );
         s.assumptions = &[
             "reference = harness Rata Die closed form, cross-checked on every date against a year-by-year accumulation and its inverse (machinery error on disagreement)",
